@@ -1,0 +1,25 @@
+// +build verif
+
+// Verification hooks (build tag "verif" only; not part of normal builds).
+
+package depend
+
+import (
+	"potano.layercake/portage/atom"
+	"potano.layercake/portage/parse"
+)
+
+// VerifNewDependencyAtomAtCursor parses one dependency atom (USE dependencies
+// included) the way decodeDependency does and also reports where the cursor stopped.
+func VerifNewDependencyAtomAtCursor(str string, versionNeedsRelop bool) (*DependAtom, int, error) {
+	cur := parse.NewAtomCursor([]byte(str))
+	da, err := newDependencyAtomAtCursor(cur, versionNeedsRelop)
+	return da, cur.Pos, err
+}
+
+// VerifFlagsMatch exposes the USE-dependency evaluation of a dependency atom:
+// result of FlagsMatch and whether it returned an error.
+func (da *DependAtom) VerifFlagsMatch(tstAtom atom.Atom, contextUse atom.UseFlagMap) (bool, bool) {
+	ok, err := da.useDependencies.FlagsMatch(tstAtom, contextUse)
+	return ok, err != nil
+}
